@@ -500,6 +500,27 @@ theorem empty_ceases_smove (s : MState) (now : Int) (src dst member : Bytes) (st
     getMeta (Api.smove s now src dst member).1 src = none :=
   C03Api.smove_src_gone s now src dst member st h hi hne hst hmem hlast
 
+/-! ### SMOVE: the cases that involve one key only -/
+
+/-- the member is not in the source: reply false, the source keeps its set (whatever the destination) -/
+theorem smove_not_member (s : MState) (now : Int) (src dst member : Bytes) (st : AList Unit)
+    (h : HotSet s src st now) (hm : DsSet.mem st member = false) :
+    (Api.smove s now src dst member).2 = .bool false ∧ HotSet (Api.smove s now src dst member).1 src st now :=
+  C03Seq.smove_not_member s now src dst member st h hm
+
+/-- a missing source is the empty set: reply false -/
+theorem smove_missing_source (s : MState) (now : Int) (src dst member : Bytes) (h : Absent s src now) :
+    (Api.smove s now src dst member).2 = .bool false :=
+  C03Seq.smove_missing_src s now src dst member h
+
+/-- source = destination (the call re-uses the write lock it holds): reply true, the set is unchanged —
+    also when the member was the only one (the key is unlinked and re-created within the call) -/
+theorem smove_same_key (s : MState) (now : Int) (key member : Bytes) (st : AList Unit)
+    (h : HotSet s key st now) (hi : IndexSorted s) (hst : AList.Sorted st) (hm : DsSet.mem st member = true) :
+    (Api.smove s now key key member).2 = .bool true ∧ HotSet (Api.smove s now key key member).1 key st now ∧
+    IndexSorted (Api.smove s now key key member).1 :=
+  C03Seq.smove_same_key s now key member st h hi hst hm
+
 end D
 
 
@@ -708,11 +729,12 @@ theorem spop_negative_count_finding (s : MState) (now : Int) (key : Bytes) (st :
 end F
 
 /- UNPROVED (not attempted / out of reach in this round):
-   * SMOVE beyond `empty_ceases_smove`: the full two-key statement (source loses the member, destination
-     gains it, reply true iff it was a member). `Api.setVal` propagates a new value to every index
-     record sharing the value object's identity (`oid`), so the statement needs a store-level invariant
-     "distinct live keys have distinct oids, all below nextId" which is a store property (it is broken
-     on purpose after `reopen` with the in-memory backend) and is not part of C03's models.
+   * SMOVE between two *different* keys with the member present, beyond `empty_ceases_smove` (proved:
+     non-member / missing source / source = destination / source ceases to exist). The remaining
+     statement (destination gains the member, source keeps the rest) is not proved: `Api.setVal`
+     propagates a new value to every index record sharing the value object's identity (`oid`), so it
+     needs a store-level invariant "distinct live keys have distinct oids, all below nextId", which is a
+     store property (broken on purpose after `reopen` with the in-memory backend) outside C03's models.
    * HINCRBYFLOAT: `Api.hincrbyfloat` is only modelled on the integer-valued fragment of float
      arithmetic (`.unsupported` elsewhere, and those branches leave a freshly created empty hash behind);
      no statement is made about it. HSCAN / SSCAN are not in C03's command list.
